@@ -221,23 +221,23 @@ K_ESCAPE = "c03-default-alias-passed-on-as-a-value"
 CLASS_ORDER = [K_ONLY, K_LEAK, K_ESCAPE, K_DFLT, K_RECAP, K_ISO_BTW, K_DJ_BTW]
 
 CLASS_TEXT = {
+    # every predicate OVER-approximates the input class of its root cause; inside a class the observed deviation must equal
+    # the mechanism model Core/Mech.v (c03.judge_with_mechanism), otherwise it is reported as c03-deviation-beyond-known-*
     K_ONLY: "django mode: a component tag with the `only` flag has fill content that is not constant text "
             "(the fill is rendered in the isolated inner context instead of the scope of the tag)",
-    K_LEAK: "a component rendered isolated (isolated mode or `only`) stands inside a {% for %} loop, and a component template "
-            "reads that loop's variable (not being one of its own variables) or reads forloop outside a loop of its own",
+    K_LEAK: "some tag is rendered isolated (isolated mode or `only`), the program has a {% for %} loop, and a component template reads "
+            "a for/with variable that is not one of its own data variables, or reads forloop outside a loop of its own",
     K_RECAP: "the program has a {% for %} loop and a fill, and a for- or with-variable that is read somewhere shares its name with another with / "
-             "for / fill-alias / component-data variable (FillNode._extract_fill re-captures every context layer containing `forloop` - enclosing loops and the "
-             "variable layers of enclosing fills that stand in a loop - above the binders that lie between)",
+             "for / fill-alias / component-data variable (FillNode._extract_fill re-captures every context layer containing `forloop`)",
     K_ISO_BTW: "isolated mode / `only`: a fill whose component tag is written in a component template has a with/for variable "
                "between tag and fill that shares its name with another binder (or reads forloop of a loop between tag and fill "
-               "while the tag stands in a loop of the owner template)",
+               "while the program has another loop)",
     K_DJ_BTW: "django mode: a fill whose component tag is not at the top level of the page has a with/for variable between tag "
-              "and fill that shares its name with a data / with / for variable bound elsewhere",
-    K_DFLT: "a fill with a default= alias prints the alias, and rendering the default content of a slot of that component reads a "
-            "name that the fill binds (alias, with/for between tag and fill, binder inside the fill): django mode - the default content "
-            "itself or a component nested in it; both modes - another fill of the same tag, through a slot nested in the default content",
-    K_ESCAPE: "a fill uses its default= alias as a value (component keyword argument, with-value, slot data, condition) instead of "
-              "printing it: the lazily rendered slot default leaves the fill",
+              "and fill that shares its name with another binder (or reads forloop of a loop between tag and fill while the program has another loop)",
+    K_DFLT: "a fill has a default= alias and reads it somewhere in its body (any depth, static or dynamic fill name): the slot default is "
+            "rendered lazily while the layers of the fill are on the Context",
+    K_ESCAPE: "a fill reads its default= alias in a value position (keyword argument, with-value, slot data, condition, loop source, fill "
+              "name) or anywhere inside a component tag nested in the fill: the lazily rendered slot default leaves the fill",
 }
 
 
